@@ -2,6 +2,7 @@ import Driver.Util
 import Driver.C20
 import Driver.C13
 import Driver.C10
+import Driver.C03
 /-!
 Line-protocol driver.  Reads one JSON object per line on stdin, each with a field `p`
 naming the property slice and an `id`; writes one JSON object per line with the same `id`
@@ -14,6 +15,7 @@ def dispatch (j : Json) : Json :=
   | "C20" => Driver.C20.handle j
   | "C13" => Driver.C13.handle j
   | "C10" => Driver.C10.handle j
+  | "C03" => Driver.C03.handle j
   | p => Json.mkObj [("bad-op", Json.str p)]
 
 partial def loop (hin hout : IO.FS.Stream) : IO Unit := do
